@@ -554,7 +554,8 @@ func (r *Run) writeEvidence(nviol, nknown int) {
 	}
 }
 
-// concurrentFailures runs the witness 8 times on each of n goroutines at once and counts the executions
+// concurrentFailures runs the witness 8 times on every other one of n goroutines at once (the rest run neighbouring
+// executions) and counts the executions
 // in which the given failure occurs.
 func concurrentFailures(body func(*explore.Ctx), choices []int, clause, sig string, n int) int {
 	var mu sync.Mutex
@@ -565,6 +566,12 @@ func concurrentFailures(body func(*explore.Ctx), choices []int, clause, sig stri
 		go func() {
 			defer wg.Done()
 			for i := 0; i < 8; i++ {
+				if w%2 == 1 && len(choices) > 0 {
+					// every other goroutine runs neighbours of the witness (its own choices cut short and continued
+					// with the default answers) so that state shared between calls is exercised with different data
+					explore.ExecLimit(body, choices[:(w/2+i)%len(choices)], false, -1)
+					continue
+				}
 				c, pmsg := explore.ExecLimit(body, choices, false, -1)
 				fails := c.Fails()
 				if pmsg != "" {
